@@ -596,7 +596,11 @@ func (e *Exec) EmitMode(o *Obligation, strict bool) []*smt.Term {
 				small = append(small, c.BVC(i, 64))
 			}
 		}
-		for _, x := range append(append(append(append([]*smt.Term{}, o.Cands...), e.cands...), extCands...), small...) {
+		// extensionality witnesses reach the hypotheses through E-matching (the
+		// witness occurs in seq_at applications of the extensionality instance);
+		// they are byte positions, not candidates for every index variable
+		_ = extCands
+		for _, x := range append(append(append([]*smt.Term{}, o.Cands...), e.cands...), small...) {
 			if !seen[x] && (nodes[x.ID] || x.Op != "sym") {
 				seen[x] = true
 				q.cands = append(q.cands, x)
@@ -630,6 +634,33 @@ func (e *Exec) EmitMode(o *Obligation, strict bool) []*smt.Term {
 			}
 			if os.Getenv("GOVC_DEBUG") != "" {
 				fmt.Fprintf(os.Stderr, "  round %d strict=%v: budget left %d, skolems %d, cands %d\n", round, strict, q.budget, len(q.newSk), len(q.cands))
+			}
+			// index terms at which the (skolemised) goal reads a local array are
+			// candidates for the next rounds: a statement about "the slot this
+			// element selects" needs the hypotheses about that slot (the index
+			// set of the array-property fragment), and such an index need not
+			// occur under any function the hypotheses mention
+			if round == 0 && !o.Cover {
+				goalInst := q.nnf(c.Not(o.Goal), true)
+				seenI := map[int]bool{}
+				var walkI func(t *smt.Term)
+				walkI = func(t *smt.Term) {
+					if seenI[t.ID] {
+						return
+					}
+					seenI[t.ID] = true
+					if t.Op == "app" && len(t.Args) > 0 && (strings.Contains(t.Name, "_arr!") || strings.Contains(t.Name, "_hv_")) {
+						ix := t.Args[len(t.Args)-1]
+						if ix.Sort == smt.BV(64) && !ix.IsConst() && !seen[ix] && len(smt.FreeBVars(ix)) == 0 && len(q.cands) < 40 {
+							seen[ix] = true
+							q.cands = append(q.cands, ix)
+						}
+					}
+					for _, a := range t.Args {
+						walkI(a)
+					}
+				}
+				walkI(goalInst)
 			}
 			// skolems reach later instantiations through E-matching (they occur in
 			// ground applications of the previous round), not as blanket candidates
@@ -723,7 +754,70 @@ func (e *Exec) discharge(quick bool, sem chan struct{}, keepScripts bool) []*Obl
 			defer wg.Done()
 			sem <- struct{}{}
 			defer func() { <-sem }()
-			best, all := smt.Portfolio(script, first, rest)
+			var best smt.Result
+			var all []smt.Result
+			if r.O.Cover {
+				best, all = smt.Portfolio(script, first, rest)
+			} else {
+				// z3-new on the strictly instantiated script first; when that does
+				// not prove the goal, the other two solvers on the same script and
+				// z3-new on the loosely instantiated one (more instances of the
+				// same hypotheses: sound, usually smaller) run side by side and
+				// the first proof wins.  A model of a script is only reported when
+				// no script was refuted.
+				best = smt.RunSolver("z3-new", script, first)
+				all = append(all, best)
+				if best.Status != "unsat" {
+					type tagged struct {
+						res   smt.Result
+						loose bool
+					}
+					ch := make(chan tagged, 3)
+					n := 0
+					if best.Status != "sat" {
+						for _, sv := range []string{"z3", "cvc5"} {
+							n++
+							go func(sv string) { ch <- tagged{smt.RunSolver(sv, script, rest), false} }(sv)
+						}
+					}
+					if a2 := e.emitLocked(r.O, false); a2 != nil {
+						logic2 := "QF_UFBV"
+						for _, a := range a2 {
+							if smt.HasQuant(a) {
+								logic2 = "ALL"
+								break
+							}
+						}
+						s2 := e.scriptLocked(a2, logic2)
+						if s2 != script {
+							n++
+							go func() { ch <- tagged{smt.RunSolver("z3-new", s2, rest+first), true} }()
+						}
+					}
+					var proof *tagged
+					for i := 0; i < n; i++ {
+						x := <-ch
+						all = append(all, x.res)
+						if os.Getenv("GOVC_DEBUG") != "" && x.loose {
+							fmt.Fprintf(os.Stderr, "loose attempt %s -> %s (%.1fs)\n", r.O.Name(), x.res.Status, x.res.Time)
+						}
+						if x.res.Status == "unsat" && proof == nil {
+							y := x
+							proof = &y
+							break // the others finish on their own (buffered channel)
+						}
+						if x.res.Status == "sat" && !x.loose && best.Status != "sat" {
+							best = x.res
+						}
+					}
+					if proof != nil {
+						best = proof.res
+						if proof.loose {
+							best.Solver += "+loose"
+						}
+					}
+				}
+			}
 			r.AllTries = all
 			r.Solver = best.Solver
 			for _, a := range all {
@@ -741,30 +835,6 @@ func (e *Exec) discharge(quick bool, sem chan struct{}, keepScripts bool) []*Obl
 					r.Output = "inconclusive: " + best.Status
 				}
 				return
-			}
-			if best.Status != "unsat" && !r.O.Cover {
-				// second attempt with looser quantifier instantiation
-				if a2 := e.emitLocked(r.O, false); a2 != nil {
-					logic2 := "QF_UFBV"
-					for _, a := range a2 {
-						if smt.HasQuant(a) {
-							logic2 = "ALL"
-							break
-						}
-					}
-					s2 := e.scriptLocked(a2, logic2)
-					b2, all2 := smt.Portfolio(s2, first, rest)
-					if os.Getenv("GOVC_DEBUG") != "" {
-						fmt.Fprintf(os.Stderr, "loose retry %s: %d nodes -> %s\n", r.O.Name(), smt.Size(a2...), b2.Status)
-					}
-					for _, a := range all2 {
-						r.Time += a.Time
-					}
-					if b2.Status == "unsat" {
-						best = b2
-						r.Solver = b2.Solver + "+loose"
-					}
-				}
 			}
 			if best.Status != "unsat" && best.Status != "sat" {
 				// inconclusive so far (time-outs under load): one patient attempt
